@@ -274,7 +274,9 @@ PROPS["C10"] = {
     "harnesses": SUBMIT + MSUBMIT + [STEP_HARNESSES[3], STEP_HARNESSES[4], STEP_HARNESSES[5], STEP_HARNESSES[0], MLOOP],
 }
 
-PROPS["C08"]["harnesses"] = PROPS["C08"]["harnesses"] + [MLOOP, MSUBMIT[2]]
+# (the multi-asset loop harness is the slowest one there is - 7-11 min depending on the box - and is quick-tier only where seeds showed it
+# to be the deciding harness: C10, C11, C14, C15)
+PROPS["C08"]["harnesses"] = PROPS["C08"]["harnesses"] + [dict(MLOOP, tiers=("thorough",)), MSUBMIT[2]]
 # (the multi-asset step loop is decided with Market::process_event replaced by a logging stand-in; what the real one does with each
 # instruction kind - route it unchanged to the addressed book - is appended below from C14's harnesses once those are defined)
 # (c14_market_event_modify_*: the formula needs 20-30 GB - rustc encodes Event's discriminant in the tag of one of its Option fields, a symbolic
